@@ -14,6 +14,8 @@ fn main() {
             "C17" => c17::replay(body),
             "C16" => c16::replay(body),
             "C19" => c19::replay(body),
+            "C02" => c02::replay(body),
+            "C18" => c18::replay(body),
             _ => { eprintln!("no replay for {prop}"); false }
         };
         println!("reproduced={reproduced}");
@@ -35,6 +37,8 @@ fn main() {
         "C17" => c17::main(tier, seed, outdir),
         "C16" => c16::main(tier, seed, outdir),
         "C19" => c19::main(tier, seed, outdir),
+        "C02" => c02::main(tier, seed, outdir),
+        "C18" => c18::main(tier, seed, outdir),
         _ => { eprintln!("unknown property {prop}"); std::process::exit(2); }
     }
 }
